@@ -198,6 +198,7 @@ func c22(r *core.Run) {
 		})
 	}
 	r.Floor("C22.G1", "counter/candidate updates in recalcDepth's callbacks", nW, 3)
+	c22Adjacent(r, rd)
 	// G2: the result never exceeds the radius; G3: zero for at most nnLowWatermark peers
 	radius := rd.Params[1]
 	nRet := 0
